@@ -130,7 +130,7 @@ def r05_2(ctx):
     ctx.check(ok, "fill_placeholders_integral_control is the left sum weighted with the interval lengths", detail="integral(grid='control') rule",
               expected="sum_k (t_{k+1}-t_k) * expr(node k), k=0..N-1, from the control-grid samples", found=found, fi=f, sample={"rule": found})
     g = prog.own_method("Stage", "sum")
-    rets = [(ast.unparse(r.value), [(ast.unparse(t), p) for t, p in ctx.scope(g).path_guards(r)]) for r in walk_no_nested(g.node) if isinstance(r, ast.Return)]
+    rets = [(ast.unparse(r.value), [(ast.unparse(t), p) for t, p in ctx.scope(g).path_guards(r) if "include_last" in ast.unparse(t)]) for r in walk_no_nested(g.node) if isinstance(r, ast.Return)]
     want = sorted([("self._create_placeholder_expr(%s, 'sum_control_plus')" % g.params[1], [("include_last", True)]),
                    ("self._create_placeholder_expr(%s, 'sum_control')" % g.params[1], [("include_last", False)])])
     ctx.check(sorted(rets) == want, "Stage.sum species by include_last", detail="species selection", expected=want, found=sorted(rets), fi=g)
